@@ -281,4 +281,51 @@ func init() {
 	addMutant(Mutant{"C19-remove-keeps-count", "C19", "app/mempool/priority_nonce.go",
 		"delete(mp.scores, scoreKey)\n\tmp.priorityCounts[score.priority]--\n\n\treturn nil", "delete(mp.scores, scoreKey)\n\n\treturn nil",
 		"Remove|undoes all four indices"})
+
+	// ---- second generation: one mutant per obligation added after the second round of seeded changes
+	addMutant(Mutant{"C01-found-flag-ignored", "C01", "x/skyway/keeper/batch.go",
+		"if !found {", "if !found && err != nil {",
+		"GetEthAddressByValidator used only when found"})
+	addMutant(Mutant{"C03-erc20-rebinding", "C03", "x/skyway/keeper/msg_server.go",
+		"if len(d) > 0 {", "if len(d) > 100 {",
+		"SetERC20ToTokenDenom|the ERC20 contract is bound only when it has no binding yet"})
+	addMutant(Mutant{"C03-relay-report-overwritten", "C03", "x/consensus/keeper/consensus/consensus.go",
+		"if msg.GetPublicAccessData() != nil {\n\t\treturn nil", "if msg.GetPublicAccessData() != nil && data == nil {\n\t\treturn nil",
+		"Queue.SetPublicAccessData|a relay report is recorded only when none exists"})
+	addMutant(Mutant{"C05-checkpoint-id-from-batch", "C05", "x/skyway/keeper/msg_server.go",
+		"batch.GetCheckpoint(string(ci.SmartContractUniqueID))", "batch.GetCheckpoint(ci.ChainReferenceID)",
+		"ConfirmBatch|GetCheckpoint is given the deployment id"})
+	addMutant(Mutant{"C08-local-zone-deadline", "C08", "x/evm/keeper/scheduler_job.go",
+		"Deadline:           sdkCtx.BlockTime().Add(10 * time.Minute).Unix(),", "Deadline:           time.Unix(sdkCtx.BlockTime().Unix(), 0).AddDate(0, 0, 1).Unix(),",
+		"calendar arithmetic in the node's local time zone"})
+	addMutant(Mutant{"C12-snapshot-rewritten-on-size-change", "C12", "x/valset/keeper/keep_alive.go",
+		"us.Set([]byte(cUnjailedSnapshotStoreKey), bytes.Join(vals, []byte(\",\")))", "if len(vals) != len(snapshot) {\n\t\tus.Set([]byte(cUnjailedSnapshotStoreKey), bytes.Join(vals, []byte(\",\")))\n\t}",
+		"UpdateGracePeriod|the unjailed set of this block is recorded"})
+	addMutant(Mutant{"C12-jail-log-key-differs", "C12", "x/valset/keeper/keeper.go",
+		"r, err := k.jailLog.Get(ctx, valAddr)", "r, err := k.jailLog.Get(ctx, sdk.ValAddress(cons[:]))",
+		"Jail|the jail record is read and written under the same key"})
+	addMutant(Mutant{"C13-empty-evidence-fast-path", "C13", "util/libcons/consensus.go",
+		"func (c ConsensusChecker) VerifyEvidence(ctx context.Context, evidences []Evidence) (*Result, error) {\n\tresult := newResult()", "func (c ConsensusChecker) VerifyEvidence(ctx context.Context, evidences []Evidence) (*Result, error) {\n\tresult := newResult()\n\tif len(evidences) == 0 {\n\t\treturn result, ErrConsensusNotAchieved\n\t}",
+		"VerifyEvidence|every returned result carries the tallied totals"})
+	addMutant(Mutant{"C14-relayed-valset-not-pending", "C14", "x/consensus/keeper/concensus_keeper.go",
+		"\t\treturn true\n\t})\n\n\treturn msgs, nil\n}\n\n// GetMessagesForRelaying", "\t\treturn msg.GetPublicAccessData() == nil\n\t})\n\n\treturn msgs, nil\n}\n\n// GetMessagesForRelaying",
+		"GetPendingValsetUpdates|every queued UpdateValset message counts as pending"})
+	addMutant(Mutant{"C14-community-fee-from-estimate", "C14", "x/consensus/keeper/estimate.go",
+		"fees.CommunityFee, err = ceilToUint64(multiplicators.CommunityFee.\n\t\tMulInt(math.NewIntFromUint64(fees.RelayerFee)))", "fees.CommunityFee, err = ceilToUint64(multiplicators.CommunityFee.\n\t\tMulInt(math.NewIntFromUint64(estimate)))",
+		"CommunityFee is computed from the relayer fee as charged"})
+	addMutant(Mutant{"C15-usage-reset-on-reconfiguration", "C15", "x/skyway/keeper/keeper.go",
+		"st := k.GetStore(ctx, types.BridgeTransferLimitPrefix)\n\treturn keeperutil.Save(st, k.cdc, []byte(limit.Token), limit)", "k.GetStore(ctx, types.BridgeTransferUsagePrefix).Delete([]byte(limit.Token))\n\tst := k.GetStore(ctx, types.BridgeTransferLimitPrefix)\n\treturn keeperutil.Save(st, k.cdc, []byte(limit.Token), limit)",
+		"the usage counter is never reset outside the limit check"})
+	addMutant(Mutant{"C16-default-admin", "C16", "x/tokenfactory/keeper/admins.go",
+		"metadata := types.DenomAuthorityMetadata{}", "metadata := types.DenomAuthorityMetadata{Admin: denom}",
+		"GetAuthorityMetadata|returns the stored record or the empty value"})
+	addMutant(Mutant{"C17-requester-from-signers", "C17", "x/scheduler/keeper/msg_server_execute_job.go",
+		"msgSrv.Keeper.GetAccount(ctx, creator).GetAddress()", "msgSrv.Keeper.GetAccount(ctx, append(msg.GetSigners(), creator)[0]).GetAddress()",
+		"ExecuteJob handler|the requester passed on is the message creator"})
+	addMutant(Mutant{"C18-sale-on-parent-context", "C18", "x/skyway/keeper/attestation.go",
+		"k.AttestationHandler.Handle(ctx, *att, claim)", "k.AttestationHandler.Handle(goCtx, *att, claim)",
+		"processAttestation|the sale handler runs on a cached context"})
+	addMutant(Mutant{"C19-capacity-from-environment", "C19", "app/app.go",
+		"nonceMempool := palomamempool.DefaultPriorityMempool()", "mempoolCfg := palomamempool.DefaultPriorityNonceMempoolConfig()\n\tmempoolCfg.MaxTx = len(os.Args) - 100\n\tnonceMempool := palomamempool.NewPriorityMempool(mempoolCfg)",
+		"mempool capacity is a non-negative constant"})
 }
